@@ -15,6 +15,8 @@ import (
 
 // prodRun drives one sequencer node step by step (C01, C04; reused by C08 and C11).
 type prodRun struct {
+	kv    bool // built on the reference key-value execution layer
+	txSeq int
 	c      *Ctx
 	w      *world.World
 	n      *world.Node
@@ -33,13 +35,28 @@ func newProdRun(c *Ctx, run string, ih uint64, cfg world.F) *prodRun {
 	c.Tr.Reset(run, cfg)
 	w := world.NewWorld(c.Tr, ih, world.T0)
 	n := w.NewNode(world.NodeOpts{Name: "seq", Aggregator: true})
-	return &prodRun{c: c, w: w, n: n, ctx: context.Background(), obsAll: true}
+	p := &prodRun{c: c, w: w, n: n, ctx: context.Background(), obsAll: true, kv: prodKVMode}
+	if p.kv {
+		kvBackend(n.Exec)
+		n.SeqD.KVFormat = true
+	}
+	return p
 }
+
+// prodKVMode: the next runs are built on the reference key-value execution layer with its own database, which
+// survives the node's crashes (what the execution double's own pure state function cannot show: an execution layer
+// that has applied something the stored chain does not contain). Transactions are then "key=value" with fresh keys.
+var prodKVMode bool
 
 func (p *prodRun) close() { p.w.Close() }
 
 func (p *prodRun) txBytes(name string) []byte {
 	b := []byte("tx-" + name)
+	if p.kv {
+		p.txSeq++
+		b = []byte(fmt.Sprintf("%s%d=%d", name, p.txSeq, p.txSeq))
+		name = fmt.Sprintf("%s.%d", name, p.txSeq)
+	}
 	p.w.IDs.Name(b, name)
 	return b
 }
@@ -228,6 +245,9 @@ type prodScenario struct {
 }
 
 func (s prodScenario) String() string {
+	if prodKVMode {
+		return fmt.Sprintf("kv-ih%d/p%d/%s", s.ih, s.prefix, s.target)
+	}
 	return fmt.Sprintf("ih%d/p%d/%s", s.ih, s.prefix, s.target)
 }
 
@@ -265,13 +285,27 @@ func (s prodScenario) prepare(c *Ctx, run string) *prodRun {
 // RunProducerCrashEnum crashes the node at every durable-write boundary of every scenario's
 // target step (positions are measured on the real code), optionally again during recovery.
 func RunProducerCrashEnum(c *Ctx) {
+	runProducerCrashEnum(c, false)
+	// the same enumeration for the blocks that carry transactions, on the reference key-value execution layer with
+	// its own durable database (run names crash/kv-...): what the executor has applied must be what the chain says
+	prodKVMode = true
+	defer func() { prodKVMode = false }()
+	runProducerCrashEnum(c, true)
+}
+
+func runProducerCrashEnum(c *Ctx, kv bool) {
 	rng := rand.New(rand.NewSource(c.Seed))
 	var scen []prodScenario
 	for _, ih := range []uint64{1, 3} {
-		scen = append(scen, prodScenario{ih, 0, "first"})
+		if !kv {
+			scen = append(scen, prodScenario{ih, 0, "first"})
+		}
 		for _, pre := range []int{1, 2, 3} {
 			for _, tg := range []string{"batch", "empty", "pending", "dup"} {
 				if tg == "dup" && pre < 2 {
+					continue
+				}
+				if kv && (tg == "empty" || tg == "dup" || pre == 3 || (ih == 3 && pre != 2)) {
 					continue
 				}
 				scen = append(scen, prodScenario{ih, pre, tg})
@@ -326,6 +360,9 @@ func RunProducerCrashEnum(c *Ctx) {
 				c.Count("nested", 1)
 			}
 		}
+	}
+	if kv {
+		return
 	}
 	// crash during the very first start of a fresh node
 	for _, ih := range []uint64{1, 3} {
